@@ -53,7 +53,7 @@ var e2DumpOnce sync.Once
 const (
 	e2NoopN       = 64
 	e2NoopRound   = uint32(0x7fff0000)
-	e2CaseTimeout = 60 * time.Second // watchdog only; cases take milliseconds
+	e2CaseTimeout = 180 * time.Second // watchdog only; cases take milliseconds (60 s fired once on a machine running 8 other test suites)
 	e2DeafProbe   = 250 * time.Millisecond
 )
 
